@@ -147,14 +147,18 @@ def generated_cases(rng, n):
         kind = i % 2; enc, plain = py_lzss(rng, rng.choice([0, 3, 50, 400]), 0 if kind == 0 else 2)
         sc = scenario.Scn().file("in0.sz", kwajfmt.szdd(kind, len(plain), enc)); fmt_ops("szdd", sc); out.append(Case("gen:szdd", "szdd", sc, True, plain))
     for i in range(n):
-        comp = rng.choice([0, 1, 2, 4]); plain = bytes(rng.choice(b"xyz \n\x00\xff") for _ in range(rng.choice([0, 7, 900, 40000])))
-        if comp == 0: payload = plain
+        comp = [3, 0, 2, 4, 1, 3][i % 6]; plain = bytes(rng.choice(b"xyz \n\x00\xff") for _ in range(rng.choice([0, 7, 900, 40000])))
+        if comp == 3:
+            from vlib import lzhenc
+            r = lzhenc.generate(rng, rng.choice([40, 400, 1500])) or lzhenc.generate(rng, 4)
+            payload, plain = r[0], r[1]
+        elif comp == 0: payload = plain
         elif comp == 1: payload = bytes(b ^ 0xFF for b in plain)
         elif comp == 2: payload, plain = py_lzss(rng, rng.choice([0, 9, 200]), 2)
         else: payload = kwajfmt.kwaj_mszip(plain, rng)
         fl = rng.randrange(64)
         f = kwajfmt.kwaj(comp, payload, fl, len(plain), b"ab", bytes(rng.randrange(3)), b"NAME", b"EX", b"extra text")
-        sc = scenario.Scn().file("in0.kwj", f); fmt_ops("kwaj", sc); out.append(Case("gen:kwaj", "kwaj", sc, True, plain))
+        sc = scenario.Scn().file("in0.kwj", f); fmt_ops("kwaj", sc); out.append(Case("gen:kwaj", "kwaj", sc, True, plain, all_faults=(comp == 3 and len(f) < 9000)))
     for i in range(n):
         if i % 2 == 0:
             oab, plain = oabfmt.build_full(rng, [rng.choice([0, 1, 300, 40000]) for _ in range(rng.randrange(1, 4))])
@@ -254,6 +258,19 @@ def hostile_cases(rng, n):
         for k in order: sc.op("cab_append", "c%d" % (k - 1), "c%d" % k)
         sc.op("cab_extract_all", "c0", "out", 6).op("cab_close", "c0")
         out.append(Case("hostile:cab-salvage-skip", "cab", sc))
+    return out
+
+def refusal_cases(rng, n):
+    """joins that are refused after the argument checks (split folders that do not belong together; the one allocation of the
+    merge failing), after which the caller - who still owns both cabinets - closes each of them"""
+    out = []
+    for i in range(n):
+        a = gen.cab_set(rng); b = gen.cab_set(rng)
+        sc = scenario.Scn().file("in0.cab", a.files[a.parts[0]]).file("in1.cab", (b if i % 2 == 0 else a).files[(b if i % 2 == 0 else a).parts[-1 if i % 2 == 0 else 1]])
+        sc.op("cab_new").op("cab_open", "c0", "in0.cab").op("cab_open", "c1", "in1.cab")
+        sc.op("cab_append" if i % 4 < 2 else "cab_prepend", *(("c0", "c1") if i % 4 < 2 else ("c1", "c0")))
+        sc.op("cab_list", "c0").op("cab_list", "c1").op("cab_close", "c1").op("cab_close", "c0")
+        out.append(Case("hostile:cab-refused-join" if i % 2 == 0 else "gen:cab-join-faults", "cab", sc, all_faults=True))
     return out
 
 class BitsLSB:
@@ -395,6 +412,8 @@ def cycle_cases(rng, n):
             # ring among the PMGL chunks: the last listing chunk points back to an earlier one
             tgt = rng.randrange(0, last + 1)
             struct.pack_into("<I", b, dirstart + last * csz + 0x10, tgt)
+            # the header's own idea of the last listing chunk is not checked against the number of chunks: make it absurd in half of these
+            if i % 4 == 0: struct.pack_into("<I", b, hs1 + 0x24, rng.choice([0xFFFFFFFF, 0x7FFFFFFF, nchunks + 5]))
         else:
             root = struct.unpack_from("<I", b, hs1 + 0x1C)[0]
             if root == 0xFFFFFFFF: continue
